@@ -1,0 +1,35 @@
+//! verification hooks (compiled only with `--cfg robopoker_verif`)
+//! re-exports of crate-private parameters and a thread-local override
+//! for the index drawn in `Deck::draw`.
+use std::cell::Cell;
+
+pub const N: usize = crate::N;
+pub const STACK: crate::Chips = crate::STACK;
+pub const B_BLIND: crate::Chips = crate::B_BLIND;
+pub const S_BLIND: crate::Chips = crate::S_BLIND;
+pub const MAX_RAISE_REPEATS: usize = crate::MAX_RAISE_REPEATS;
+pub const MAX_DEPTH_SUBGAME: usize = crate::MAX_DEPTH_SUBGAME;
+pub const SINKHORN_TEMPERATURE: f32 = crate::SINKHORN_TEMPERATURE;
+pub const SINKHORN_ITERATIONS: usize = crate::SINKHORN_ITERATIONS;
+pub const SINKHORN_TOLERANCE: f32 = crate::SINKHORN_TOLERANCE;
+pub const KMEANS_FLOP_CLUSTER_COUNT: usize = crate::KMEANS_FLOP_CLUSTER_COUNT;
+pub const KMEANS_TURN_CLUSTER_COUNT: usize = crate::KMEANS_TURN_CLUSTER_COUNT;
+pub const KMEANS_EQTY_CLUSTER_COUNT: usize = crate::KMEANS_EQTY_CLUSTER_COUNT;
+pub const CFR_DISCOUNT_PHASE: usize = crate::CFR_DISCOUNT_PHASE;
+pub const CFR_PRUNNING_PHASE: usize = crate::CFR_PRUNNING_PHASE;
+pub const REGRET_MIN: f32 = crate::REGRET_MIN;
+pub const REGRET_MAX: f32 = crate::REGRET_MAX;
+pub const POLICY_MIN: f32 = crate::POLICY_MIN;
+
+thread_local! {
+    static DRAW_INDEX: Cell<Option<u8>> = Cell::new(None);
+}
+
+/// force the next `Deck::draw` calls on this thread to use index `i`
+/// (reduced modulo the deck size) instead of the random one.
+pub fn set_draw_index(i: Option<u8>) {
+    DRAW_INDEX.with(|c| c.set(i));
+}
+pub fn draw_index(n: u8) -> Option<u8> {
+    DRAW_INDEX.with(|c| c.get()).map(|i| i % n.max(1))
+}
